@@ -13,5 +13,6 @@ CONSTANTS
   CapSet = {2, 3}
   RetSet = {0, 2, 3}
   CompactSet = {FALSE, TRUE}
+  AgeSet = {0, 3}
   Keys = {"a", "b", "nil"}
 CHECK_DEADLOCK FALSE
